@@ -2,6 +2,7 @@ import JediModel.Proto
 import JediModel.Model.PyCore
 import JediModel.Lemmas.PyCoreExact
 import JediModel.Model.ArgBind
+import JediModel.Model.ClassLookup
 open Lean Proto JediModel.PyCore
 
 instance : Inhabited Expr := ⟨.int⟩
@@ -119,9 +120,29 @@ def handle (j : Json) : Json :=
     ("py", jopt envJson (bindPy ps pos kws))]
 end Bind
 
+/-! ### class-level lookup of classmethods (Model/ClassLookup): `lookup` -/
+namespace Lookup
+open JediModel.ClassLookup
+
+def parseClass (j : Json) : ClassDef :=
+  match asArr j with
+  | [b, ns] => { base := (match b with | .null => none | b => some (asNat b)), cms := (asArr ns).map asNat }
+  | _ => { base := none, cms := [] }
+
+/-- answers with the model of the source as validated (the filter carries the lookup class) -/
+def handle (j : Json) : Json :=
+  let h : Hier := (arr j "hier").map parseClass
+  let names := nat j "names"
+  jobj [("queries", jarr ((List.range h.length).flatMap fun c => (List.range names).map fun n =>
+    jobj [("c", jnat c), ("n", jnat n),
+          ("jedi", jopt jnat (jediBoundCls true h c n)),
+          ("py", jopt jnat (pyBoundCls h c n))]))]
+end Lookup
+
 def handle (j : Json) : Json :=
   match str j "op" with
   | "bind" => Bind.handle j
+  | "lookup" => Lookup.handle j
   | "run" =>
     let p : Prog := (arr j "prog").map parseStmt
     let fuel := nat j "fuel"
